@@ -280,7 +280,7 @@ func TestC10(t *testing.T) {
 		t.Skip("needs the instrumented build")
 	}
 	st := statsFor("C10")
-	st.Rule = "async configurations (threshold 1-8, timeout 100 ms-2 s), two collections on one handle; ops: writes, deletes of pending and of flushed objects, batches, reads, ticks of virtual time (100 ms-1.2 s; time.Sleep of the working-tree copy is owned by the harness, the flusher is stepped deterministically), FlushAll, FlushAllAndCommit, Flush of one object, Close+reopen (so also the one-call-after-reopen shape). Oracle: after every op every read path of the live handle equals the model (visibility at once); after a tick, with q = virtual time since the last call: no file exists for an object that is not stored (deleted while pending); if q >= 2 poll steps fewer than threshold objects per collection lag behind on disk (independent walker compares file bodies with the model); if q >= timeout + 2 steps none lags; independently of q, no accepted value of the first collection waits longer than timeout + 2 steps of virtual time, even when other calls keep arriving (age rule); a restart on a directory that lost an object file (corruption reported, Repair) is an op, after which the same deadlines apply; FlushAll returns with every file on disk, FlushAllAndCommit and Close additionally leave a directory that matches the model (walker incl. schema.json) and that a second handle loads without corruption and reads identically (Close: both collections). Nothing is asserted about flushes happening earlier than a deadline. A third collection is created from the SAME sod.Schema value as the second one and the second one is re-created with other or no async settings at generated points: the third collection must keep its own settings (visibility, threshold and timeout deadlines). The one-call-after-reopen shape (Close, Open, exactly one update, then only time passes) is a dedicated op. TestC10Readers adds the concurrent half: 2-8 reader goroutines (All, unindexed Search, Count, AssignIndex) never leave the handle idle on a 20x scaled clock while threshold- or timeout-many writes are pending; they must reach the disk within 20 s real time (400 s of database time). TestC10Switch (scaled clock): async writes are switched off and on again back to back through Create while 0-4000 writes are pending, so the outgoing flusher overlaps the new settings; writes accepted afterwards must be on disk within 400 s of database time (20 s real) without a further call. TestC10Hammer (scaled clock): 2-6 writers keep rewriting their own 40-200 objects (single InsertOrUpdate and batches) while the flusher fires all the time; after Close a fresh handle reads, for every object, the last value its writer got accepted. Non-trivial: a deadline is reached while >= 1 write was lagging at the previous observation, or a pending object is deleted and a flush follows. Distinct by program hash."
+	st.Rule = "async configurations (threshold 1-8, timeout 100 ms-2 s), two collections on one handle; ops: writes, deletes of pending and of flushed objects, batches, reads, ticks of virtual time (100 ms-1.2 s; time.Sleep of the working-tree copy is owned by the harness, the flusher is stepped deterministically), FlushAll, FlushAllAndCommit, Flush of one object, Close+reopen (so also the one-call-after-reopen shape). Oracle: after every op every read path of the live handle equals the model (visibility at once); after a tick, with q = virtual time since the last call: no file exists for an object that is not stored (deleted while pending); if q >= 2 poll steps fewer than threshold objects per collection lag behind on disk (independent walker compares file bodies with the model); if q >= timeout + 2 steps none lags; independently of q, no accepted value of the first collection waits longer than timeout + 2 steps of virtual time, even when other calls keep arriving (age rule); a restart on a directory that lost an object file (corruption reported, Repair) is an op, after which the same deadlines apply; FlushAll returns with every file on disk, FlushAllAndCommit and Close additionally leave a directory that matches the model (walker incl. schema.json) and that a second handle loads without corruption and reads identically (Close: both collections). Nothing is asserted about flushes happening earlier than a deadline. A third collection is created from the SAME sod.Schema value as the second one and the second one is re-created with other or no async settings at generated points: the third collection must keep its own settings (visibility, threshold and timeout deadlines). The one-call-after-reopen shape (Close, Open, exactly one update, then only time passes) is a dedicated op. TestC10Readers adds the concurrent half: 2-8 reader goroutines (All, unindexed Search, Count, AssignIndex) never leave the handle idle on a 20x scaled clock while threshold- or timeout-many writes are pending; they must reach the disk within 20 s real time (400 s of database time). TestC10Switch (scaled clock): async writes are switched off and on again back to back through Create while 0-4000 writes are pending, so the outgoing flusher overlaps the new settings; writes accepted afterwards must be on disk within 400 s of database time (20 s real) without a further call. TestC10Hammer (scaled clock): 2-6 writers keep rewriting their own 40-200 objects (single InsertOrUpdate and batches) while the flusher fires all the time; after Close a fresh handle reads, for every object, the last value its writer got accepted. TestC10CloseRetry: Close meets one storage fault - every position of its file-system mutations is tried, with 1-5 pending objects, optionally an index committed before and updates after - and is called again; whichever Close returns nil has put every accepted write and a matching index on disk (a new handle loads without corruption, reads every value, Control nil). Non-trivial: a deadline is reached while >= 1 write was lagging at the previous observation, or a pending object is deleted and a flush follows. Distinct by program hash."
 	st.Assumptions = append(baseAssumptions(), "the flusher measures time only through time.Sleep/After/Ticker (redirected to the virtual clock)", "threshold >= 1 and timeout >= one poll step")
 	prof := c10Profile()
 	rapid.Check(t, func(rt *rapid.T) {
